@@ -982,6 +982,26 @@ def closure_creation(prog, ckey):
     parent = f.get("parent")
     if parent not in prog.fns:
         return None
+    try:
+        plumb = prog.plumbing_fns()
+    except Exception:
+        plumb = ()
+    if parent in plumb:
+        # the closure is written in a method of a private helper type that the default view splices into its callers: it is created where
+        # that copy stands (there the helper's parameters are the caller's own values)
+        hosts = []
+        for k2, f2 in prog.fns.items():
+            if k2 in plumb or f2.get("kind") == "Closure" or k2 == parent:
+                continue
+            if not any(prog._calls_any(k2, {parent})):
+                continue
+            b2 = prog.body(k2)
+            for (i2, j2, s2) in b2.stmts():
+                if s2["k"] == "assign" and s2["rv"]["k"] == "aggregate" and s2["rv"].get("closure") == ckey:
+                    hosts.append((b2, i2, j2, s2))
+        if len(hosts) == 1:
+            b2, i2, j2, s2 = hosts[0]
+            return b2, i2, j2, s2, [b2.expr_operand(o) for o in s2["rv"]["ops"]]
     b = prog.body(parent)
     for (i, j, s) in b.stmts():
         if s["k"] == "assign" and s["rv"]["k"] == "aggregate" and s["rv"].get("closure") == ckey:
